@@ -32,7 +32,8 @@
 (*   id : set;  state : zero | running;  reason, submit : set (plan);      *)
 (*   attempts : set (action)             -- engine-owned fields pre-set    *)
 (*   key : v4 | K1 | K2    -- a version-4 key / the shared v7 key K1 / K2  *)
-(*   timeout : 0 | 1s | 4999ms | 5s ;  retries : neg                       *)
+(*   timeout : 0 | 1s | 4999ms | 5s | neg (-1s: below five seconds and not  *)
+(*             the zero that means "default") ;  retries : neg             *)
 (*   plugin : unknown | blank | otherkind  (otherkind = the non-check      *)
 (*            plugin inside a checks group / the check plugin in a seq)    *)
 (*   req : bad | wrongtype -- a request the plugin's ValidateReq rejects   *)
@@ -101,7 +102,7 @@ MutsOf(k) ==
     [] k = "checks" -> Common \cup Kids \cup Keyed \cup {M("entry", "absent")}
     [] k = "action" -> Common \cup Named \cup Keyed \cup
                        {M("entry", "nil"), M("attempts", "set"), M("retries", "neg"),
-                        M("timeout", "0"), M("timeout", "1s"), M("timeout", "4999ms"), M("timeout", "5s"),
+                        M("timeout", "0"), M("timeout", "1s"), M("timeout", "4999ms"), M("timeout", "5s"), M("timeout", "neg"),
                         M("plugin", "unknown"), M("plugin", "blank"), M("plugin", "otherkind"),
                         M("req", "bad"), M("req", "wrongtype")}
 
@@ -170,7 +171,7 @@ Violations(t) ==
   \cup (IF \E p, q \in live : p # q /\ Has(t[p], "key") /\ Has(t[q], "key") /\ t[p].d["key"] # "v4"
                              /\ t[p].d["key"] = t[q].d["key"] THEN {"duplicate key"} ELSE {})
   \* "timeouts of at least five seconds (zero meaning the default)"
-  \cup (IF \E p \in live : Is(t[p], "timeout", "1s") \/ Is(t[p], "timeout", "4999ms") THEN {"timeout below 5s"} ELSE {})
+  \cup (IF \E p \in live : Is(t[p], "timeout", "1s") \/ Is(t[p], "timeout", "4999ms") \/ Is(t[p], "timeout", "neg") THEN {"timeout below 5s"} ELSE {})
   \* "every action naming a registered plugin that accepts its request"
   \cup (IF \E p \in live : Is(t[p], "plugin", "unknown") \/ Is(t[p], "plugin", "blank") THEN {"plugin not registered"} ELSE {})
   \cup (IF \E p \in live : Has(t[p], "req") THEN {"request rejected by plugin"} ELSE {})
@@ -198,7 +199,8 @@ StartVerdict(t) == StartVerdictV(t, Violations(t))
 StoredTimeout(o) == IF Is(o, "timeout", "0") THEN 30000
                     ELSE IF Is(o, "timeout", "5s") THEN 5000
                     ELSE IF Is(o, "timeout", "1s") THEN 1000
-                    ELSE IF Is(o, "timeout", "4999ms") THEN 4999 ELSE 10000
+                    ELSE IF Is(o, "timeout", "4999ms") THEN 4999
+                    ELSE IF Is(o, "timeout", "neg") THEN 0 ELSE 10000
 Timeouts(t) == [p \in {q \in DOMAIN t : t[q].k = "action" /\ ~IsNil(t[q])} |-> StoredTimeout(t[p])]
 
 (* ------------------------------------------------------------------ *)
